@@ -2,6 +2,8 @@ package props
 
 import (
 	"fmt"
+	"os"
+	"path/filepath"
 	"sort"
 	"strings"
 
@@ -189,7 +191,7 @@ func init() {
 		Rule: "case k draws a document of the SPDX-representable class: shape k mod 13 of the catalogue (singleton, chain, star, diamond, DAG, cycle, self-loop, several edges per source/type, several roots, no root, complete, all roots, random), " +
 			"edge type 1+k mod 44 and checksum algorithm k mod 16 forced to occur, package and file nodes, every SPDX-carried attribute independently present, two-purpose packages, dates with nanoseconds, unicode text without JSON escapes; " +
 			"written with indentation c01Indents[k mod 6] through writer.WriteStreamWithOptions, read back with reader.ParseStream, projections compared (node set, typed edge triples, roots, per-node attributes under the NOASSERTION/NONE conventions); a second write/read pass must change nothing. " +
-			"Thorough adds the repository's real SPDX files re-serialized twice. distinct = hash of the written bytes; non-trivial = >=2 nodes, >=1 edge and >=3 populated attributes on some node.",
+			"Cases 0-5 re-serialize the repository's real SPDX 2.3 files twice. distinct = hash of the written bytes; non-trivial = >=2 nodes, >=1 edge and >=3 populated attributes on some node.",
 		Assumptions: []string{"ids from the SPDX idstring alphabet; edge type != UNKNOWN; hash algorithm != MD2/UNKNOWN; external-reference types limited to the 8 SPDX carries natively with non-empty URL; supplier/originator names non-empty", "Node.licenses is not compared (SPDX packages have no licence list)"},
 		NCases: func(tier string) int {
 			if tier == "thorough" {
@@ -211,7 +213,59 @@ func populatedAttrs(n *sbom.Node) int {
 	return c
 }
 
+var c01RealFiles = c03RealFiles[:6] // the SPDX 2.3 samples of the repository
+
+// c01Real: a real SPDX file, parsed by protobom, must survive write -> read (projection) and be a fixed point.
+func c01Real(c *core.C, path string) {
+	raw, err := os.ReadFile(filepath.Join(repoDir(), path))
+	if err != nil {
+		c.Cover("real-file-missing")
+		return
+	}
+	d0, err := parseAuto(raw)
+	if err != nil {
+		c.Cover("real-file-unparsed")
+		return
+	}
+	if gen.WellFormed(d0.NodeList) != "" {
+		c.Cover("real-file-parse-not-closed(external references; not in the class)")
+		return
+	}
+	c.Cover("real-files")
+	det := map[string]any{"file": path}
+	cur := d0
+	for pass := 1; pass <= 2; pass++ {
+		var out []byte
+		var next *sbom.Document
+		if guard(c, "write-spdx23", det, func() { out, err = writeDoc(cur, formats.SPDX23JSON, 2) }) {
+			return
+		}
+		if err != nil {
+			c.Violatef("real-write-error", det, "writing the parsed %s as SPDX failed: %v", path, err)
+			return
+		}
+		if guard(c, "read-spdx23", det, func() { next, err = parseAuto(out) }) {
+			return
+		}
+		c.Evals(2)
+		if err != nil {
+			c.Violatef("real-read-error", det, "reading back the re-serialized %s failed: %v", path, err)
+			return
+		}
+		if sig, msg := compareSPDX(cur, next); sig != "" {
+			c.Violatef(fmt.Sprintf("real-pass%d-%s", pass, sig), det, "%s, pass %d: %s", path, pass, msg)
+			return
+		}
+		c.DistinctBytes(out)
+		cur = next
+	}
+}
+
 func c01Case(c *core.C) {
+	if c.K < len(c01RealFiles) {
+		c01Real(c, c01RealFiles[c.K])
+		return
+	}
 	maxNodes := 12
 	if c.Thorough() {
 		maxNodes = 40
